@@ -60,8 +60,9 @@ fn gen_program(t: &mut Tape, modified: bool) -> ProgOut {
                 lines.push("    thrower(b)".into());
                 lines.push("  return y".into());
                 lines.push("}".into());
+                // the call on the second line is a copied call expression: its call site resolves to exactly that line
+                // (only a frame located on the first line - the injected hook call - may resolve anywhere in the statement)
                 spans.insert(first.to_string(), json!([first, first + 1]));
-                spans.insert((first + 1).to_string(), json!([first, first + 1]));
             }
             6 => {
                 lines.push(format!("function {name}(a, b) {{"));
